@@ -16,3 +16,177 @@ def header_functions(m, headers):
 
 def floc(m, f):
     return '%s:%d' % ((f.file or '').replace(m.repo + '/', ''), f.line)
+
+
+# ---- swap completeness ----------------------------------------------------------------------------
+
+def _struct_of(argty):
+    t = (argty or '').strip()
+    if t.startswith('%struct.') and t.endswith('*') and not t.endswith('**'):
+        return t[1:-1]
+    return None
+
+
+def _leaf_ranges(mod, sname, base=0, depth=0):
+    """byte ranges of the scalar members of a struct (padding excluded)"""
+    sd = mod.structs.get(sname)
+    if sd is None or depth > 6:
+        return None
+    out = []
+    for fd in sd.get('fields', []):
+        ty = fd.get('ty', '')
+        inner = ty[1:] if ty.startswith('%struct.') else None
+        if inner and inner in mod.structs and not ty.endswith('*'):
+            sub = _leaf_ranges(mod, inner, base + fd['off'], depth + 1)
+            if sub is None:
+                out.append((base + fd['off'], base + fd['off'] + fd['size']))
+            else:
+                out += sub
+        else:
+            out.append((base + fd['off'], base + fd['off'] + fd['size']))
+    return out
+
+
+def swap_coverage(m, f, _depth=0):
+    """For a function f(struct S *a, struct S *b): which bytes of *a are exchanged with the same bytes of *b.
+    Returns (sname, size, covered ranges, missing member ranges, problems)."""
+    from ..ir import resolve_addr, const_int
+    from ..facts import strip_bitcasts
+    problems = []
+    if len(f.args) < 2:
+        return None
+    sname = _struct_of(f.args[0].get('ty'))
+    if sname is None or _struct_of(f.args[1].get('ty')) != sname:
+        return None
+    mod = f.module
+    sd = mod.structs.get(sname)
+    if sd is None:
+        return None
+    covered = []
+    for c in f.all_insts():
+        if c.op != 'call' or not c.callee or c.is_intrinsic():
+            continue
+        ptrs = []
+        for o in c.o[:2]:
+            a = resolve_addr(f, o) if isinstance(o, str) else None
+            ptrs.append(a)
+        if len(ptrs) < 2 or ptrs[0] is None or ptrs[1] is None:
+            continue
+        roots = (strip_bitcasts(f, ptrs[0].root), strip_bitcasts(f, ptrs[1].root))
+        if set(roots) != {'$0', '$1'} or ptrs[0].coff is None or ptrs[0].coff != ptrs[1].coff:
+            if set(roots) & {'$0', '$1'} and roots[0] != roots[1]:
+                problems.append('the exchange at %s pairs different members of the two objects' % c.loc())
+            continue
+        off = ptrs[0].coff
+        n = None
+        if len(c.o) >= 4 and const_int(c.o[3]) is not None:
+            n = const_int(c.o[3])                      # cstl_swap(a, b, tmp, bytes)
+        else:
+            g = m.pfn(c.callee)
+            sub = swap_coverage(m, g, _depth + 1) if (g is not None and _depth < 4) else None
+            if sub is not None and not sub[3] and not sub[4]:
+                n = sub[1]
+            elif sub is not None:
+                problems.append('%s(), used at %s, does not itself exchange the whole object' % (c.callee, c.loc()))
+                n = sub[1]
+        if n is not None:
+            covered.append((off, off + n))
+    leaves = _leaf_ranges(mod, sname) or [(0, sd.get('size', 0))]
+    missing = []
+    for lo, hi in leaves:
+        pos = lo
+        for a, b in sorted(covered):
+            if a <= pos < b:
+                pos = b
+        if pos < hi:
+            missing.append((lo, hi))
+    return sname, sd.get('size', 0), covered, missing, problems
+
+
+def member_at(mod, sname, off, depth=0):
+    sd = mod.structs.get(sname) or {}
+    for fd in sd.get('fields', []):
+        if fd['off'] <= off < fd['off'] + fd['size']:
+            ty = fd.get('ty', '')
+            inner = ty[1:] if ty.startswith('%struct.') else None
+            if inner and inner in mod.structs and not ty.endswith('*') and depth < 6:
+                return fd['name'] + '.' + member_at(mod, inner, off - fd['off'], depth + 1)
+            return fd['name']
+    return '+%d' % off
+
+
+def check_swap_complete(m, name, rule):
+    f = m.pfn(name)
+    if f is None:
+        rule.undecided(name, 'not in the model')
+        return
+    r = swap_coverage(m, f)
+    if r is None:
+        rule.undecided(name, 'not a (struct *, struct *) function or the struct layout is unknown', floc(m, f))
+        return
+    sname, size, covered, missing, problems = r
+    if missing or problems:
+        what = ', '.join(sorted({member_at(f.module, sname, lo) for lo, hi in missing}))
+        msg = []
+        if missing:
+            msg.append('member(s) %s of %s are not exchanged: each stays with the object it was in while the rest moves' % (what, sname))
+        rule.violation(name, '; '.join(msg + problems), floc(m, f), {'covered': covered, 'missing': missing})
+    else:
+        rule.ok(name, 'all %d bytes of %s that hold members are exchanged (%d exchange call(s))' % (size, sname, len(covered)), floc(m, f))
+
+
+# ---- (function pointer, context) pairs travel together ---------------------------------------------
+
+CB_FTYS = {'i32 (i8*, i8*, i8*)': 2, 'i32 (i8*, i8*)': 1, 'void (i8*, i8*)': 1}
+
+
+def check_callback_context(m, rule, suffixes):
+    """every call through a caller-supplied comparison / visit / clear pointer passes the context that was supplied with
+    it: a pointer taken from parameter k goes with parameter k+1; a pointer loaded from a structure goes with a context
+    loaded from the same structure -- never with the structure itself or an unrelated value"""
+    from ..ir import resolve_addr
+    from ..facts import strip_bitcasts
+    n = 0
+    for f in m.all_plain_functions():
+        if not (f.file or '').endswith(tuple(suffixes)):
+            continue
+        for c in f.all_insts():
+            if c.op != 'call' or c.callee is not None or c.x.get('fty') not in CB_FTYS:
+                continue
+            k = CB_FTYS[c.x['fty']]
+            if len(c.o) <= k:
+                continue
+            cv = c.x.get('cv')
+            ctx = strip_bitcasts(f, c.o[k]) if isinstance(c.o[k], str) else c.o[k]
+            site = '%s:callback@%d' % (f.name, c.line or 0)
+            cvi = f.get(cv) if isinstance(cv, str) else None
+            n += 1
+            if isinstance(cv, str) and cv.startswith('$') and cv[1:].isdigit():
+                want = '$%d' % (int(cv[1:]) + 1)
+                if ctx == want:
+                    rule.ok(site, 'pointer %s with its context %s' % (f.vname(cv), f.vname(ctx)), c.loc())
+                elif isinstance(ctx, str) and ctx.startswith('$'):
+                    rule.violation(site, 'the function passed as `%s` is called with `%s` as its context instead of the context parameter that '
+                                   'accompanies it (`%s`)' % (f.vname(cv), f.vname(ctx), f.vname(want)), c.loc(), {})
+                else:
+                    rule.ok(site, 'NOT DECIDED: context %s' % ctx, c.loc())
+            elif cvi is not None and cvi.op == 'load':
+                a = resolve_addr(f, cvi.o[0])
+                root = strip_bitcasts(f, a.root) if isinstance(a.root, str) else a.root
+                ci = f.get(ctx) if isinstance(ctx, str) else None
+                if ctx == root:
+                    rule.violation(site, 'the function stored in %s is called with the structure that holds it as its context, not with the context '
+                                   'stored beside it: a comparison / visit function that uses its private pointer sees foreign memory'
+                                   % ('.'.join(a.steps) or 'the holder'), c.loc(), {})
+                elif ci is not None and ci.op == 'load':
+                    a2 = resolve_addr(f, ci.o[0])
+                    r2 = strip_bitcasts(f, a2.root) if isinstance(a2.root, str) else a2.root
+                    if r2 == root and a2.fsteps[:-1] == a.fsteps[:-1]:
+                        rule.ok(site, 'pointer %s with the context %s stored beside it' % ('.'.join(a.steps), '.'.join(a2.steps)), c.loc())
+                    else:
+                        rule.ok(site, 'NOT DECIDED: pointer from %s, context from %s' % ('.'.join(a.steps), '.'.join(a2.steps)), c.loc())
+                else:
+                    rule.ok(site, 'NOT DECIDED: context %s' % ctx, c.loc())
+            else:
+                rule.ok(site, 'NOT DECIDED: callee %s' % cv, c.loc())
+    return n
